@@ -15,8 +15,9 @@
           and the keep/remove table as one-step lemmas.
   Part II (gate): for every interleaving of the labelled transition system of the gate, with any
           number of `spawn_missing_watchers` batches — `gate_safe`, `pass_safe`, `detach_safe`,
-          `ungated_only_after_ready`, `gate_can_open` (from every reachable state the gate can open:
-          no deadlock), and witnesses that three broken variants violate safety.
+          `ungated_only_after_ready`; beyond the property: `gate_can_open_partial` (the gate can open
+          from every reachable state in which no indexing cycle failed) with `gate_stuck_witness`
+          for the failing path; and witnesses that three broken variants violate safety.
 -/
 import Kopf.Base.J
 import Kopf.Lemmas.C17_Mirror
@@ -360,17 +361,24 @@ theorem ungated_only_after_ready {s : GState R O} (h : Reach s) (ro : R × O) (w
   | true => exact hi.b he
   | false => have := ((hi.a he).2 ro w hw).1; simp [hg] at this
 
-/-- **The gate can always open (no deadlock).** From every reachable state there is a
-    continuation — the pending spawns, the toggles of watchers caught between `is_on()` and
-    `make_toggle`, the outstanding LISTEDs, and each started `index_resource` returning — after
-    which the set is on and every worker is past the gate. (Possibility, not fairness: it assumes
-    every started `index_resource` call can return and every listing can finish; finding C17-F3
-    is a real way for a call never to "return" in this sense.) -/
-theorem gate_can_open {s : GState R O} (h : Reach s) :
+/- Full statement of "the gate can always open" (FALSE of the code and of the model, see
+   `gate_stuck_witness`):
+     ∀ s, Reach s → ∃ ls s', run .none s ls = some s' ∧ Open s'
+   This is a liveness statement BEYOND property C17 (whose gate clause is pure safety); it is kept
+   here because a safety theorem about a gate that could never open would be hollow. -/
+/-- **The gate can open, partial**: from every reachable state in which no indexing cycle has ended
+    without reaching `drop_toggle` (`failed = false`: every `index_resource` call so far returned,
+    no cycle was swallowed or skipped by the error throttler) there is a continuation — the
+    pending spawns, the toggles of watchers caught between `is_on()` and `make_toggle`, the
+    outstanding LISTEDs, and each started `index_resource` returning — after which the set is on
+    and every worker is past the gate. Possibility, not fairness. The guard is what the code
+    needs: see `gate_stuck_witness` for the raising path. -/
+theorem gate_can_open_partial {s : GState R O} (h : Reach s) (hf : s.failed = false) :
     ∃ ls s', run .none s ls = some s' ∧ Open s' := by
   obtain ⟨ls0, hls0⟩ := h
-  exact can_open_aux (mu s) s (Nat.le_refl _) (run_inv ls0 inv_init hls0)
-    (run_pinv ls0 inv_init pinv_init hls0)
+  obtain ⟨ls, s', h1, h2, _⟩ := can_open_aux (mu s) s (Nat.le_refl _) (run_inv ls0 inv_init hls0)
+    (run_pinv ls0 inv_init pinv_init hls0 hf) hf
+  exact ⟨ls, s', h1, h2⟩
 
 end
 
@@ -400,6 +408,15 @@ example : (run .none GState.init goodTrace).map (fun s => (s.handled, readyB s, 
 /-- in the middle of the second batch: handlers run (`Ready1`) although not every kind is listed (`¬Ready`) -/
 example : (run .none GState.init (goodTrace.take 55)).map (fun s => (s.handled, readyB s, ready1B s))
     = some (true, false, true) := by decide
+
+-- the guard of `gate_can_open_partial` holds on this (non-trivial, two-batch) reachable state
+example : (run .none GState.init goodTrace).map (fun s => s.failed) = some false := by decide
+
+-- a failed cycle alone is not fatal: a later event of the same object re-indexes and drops the toggle
+example : (run .none GState.init
+    [ .spawnBegin [(1, true)], .spawn 1, .spawnEnd, .check 1 7 false, .arrive 1 7 true true, .listed 1,
+      .indexFail 1 7, .again 1 7, .index 1 7, .drop 1 7, .pass 1 7, .handle 1 7 ] : Option (GState Nat Nat)).map
+    (fun s => (s.failed, s.handled, ready1B s)) = some (true, true, true) := by decide
 
 /-- the gate refuses to let a waiter pass while a kind is still listing -/
 example : (run .none GState.init
@@ -438,6 +455,21 @@ theorem dropBeforeIndex_witness : ∃ (ls : List (Label Nat Nat)) (s : GState Na
   have := h.2.2 (1, 7) (by decide) (by decide)
   revert this
   decide
+
+/-- **The raising path** (observation beyond the property; proposal `proposals/fix-C17F3`): the
+    indexing cycle of a listed object ends without `drop_toggle` (`indexFail`: e.g. a `when=` filter
+    of an index handler raised and the throttler swallowed it), no further event of that object
+    comes, its worker exits after the idle timeout — the toggle stays in the set for good, and on
+    NO continuation is the set ever on again: no handler of any object of any kind will start. -/
+theorem gate_stuck_witness : ∃ s : GState Nat Nat, Reach s ∧
+    ∀ ls s', run .none s ls = some s' → s'.isOn = false := by
+  refine ⟨_, ⟨[ .spawnBegin [(1, true)], .spawn 1, .spawnEnd, .check 1 7 false, .arrive 1 7 true true,
+                .listed 1, .indexFail 1 7, .exit 1 7 ], rfl⟩, ?_⟩
+  intro ls s' h
+  have hm := run_leaked_mono ls h (1, 7) (by decide)
+  cases hl : s'.leaked with
+  | nil => rw [hl] at hm; cases hm
+  | cons x r => simp [GState.isOn, hl]
 
 end Gate
 end Kopf.C17
